@@ -191,10 +191,17 @@ func (f *Frame) modelCallFull(key string, sig *types.Signature, vals []Val, args
 		vc.used["A-STD"] = true
 		r := vc.freshVal("ctxerr", resT(0))
 		f.setCell(f.cur, "ghost:lastCtxErrNil", SBool, eq(sx("i_typ", r.t), "0"))
+		// once a receive from ctx.Done() succeeded the context is done: Err() is non-nil from then on
+		vc.declareFun("ctx_done", []Sort{SIface}, SInt)
+		rc := f.getCell(f.cur, "ghost:recvd", "(Array Int Bool)")
+		vc.assume(implies(sx("select", rc, sx("ctx_done", vals[0].t)), sx("distinct", sx("i_typ", r.t), "0")))
 		return r, true
 	case "iface:context.Context.Done":
 		vc.used["A-STD"] = true
-		return f.newRef("donechan", resT(0)), true
+		vc.declareFun("ctx_done", []Sort{SIface}, SInt)
+		d := sx("ctx_done", vals[0].t)
+		vc.assume(sx("distinct", d, "0"))
+		return Val{d, SInt, resT(0)}, true
 	case "context.Background", "context.TODO":
 		vc.declare("ctx_background", SIface)
 		vc.assume(sx("distinct", sx("i_typ", "ctx_background"), "0"))
